@@ -143,6 +143,8 @@ func main() {
 		extra := qnet.Configs(4, 3, []specqbft.Height{1, 2, 3})
 		// n=7 (quorum 5, one Byzantine member): k<=1
 		extra = append(extra, qnet.Configs(7, 3, []specqbft.Height{0})...)
+		// n=7 with f=2 faulty members (one Byzantine policy + one silent operator)
+		extra = append(extra, qnet.ConfigsTwoFaulty(3)...)
 		for _, c := range extra {
 			k := 1
 			if *kOverride >= 0 {
